@@ -93,6 +93,8 @@ def _decorator_names(node):
 
 
 class Program:
+    OVERLAY: dict = {}
+
     def __init__(self, root: str):
         self.root = os.path.abspath(root)
         self.modules: dict[str, ModuleInfo] = {}
@@ -120,8 +122,11 @@ class Program:
                 if is_pkg:
                     parts = parts[:-1]
                 modname = ".".join(parts)
-                with open(path, "r", encoding="utf-8") as f:
-                    src = f.read()
+                if rel in self.OVERLAY:  # in-memory variant of one file (tools/mutsweep.py only; registered checks never set it)
+                    src = self.OVERLAY[rel]
+                else:
+                    with open(path, "r", encoding="utf-8") as f:
+                        src = f.read()
                 h.update(rel.encode())
                 h.update(src.encode())
                 try:
